@@ -19,6 +19,9 @@ UNWRAP_PAYLOAD = {("Option", "unwrap"): ("v:Some", "f:0"), ("Option", "expect"):
                   ("Result", "unwrap"): ("v:Ok", "f:0"), ("Result", "expect"): ("v:Ok", "f:0")}
 
 
+AGG_FIELDS = {}  # "Type::Variant" -> field names in declaration order (filled when facts are loaded)
+
+
 def tproj(t, path):
     """the sub-value of tree t at projection path"""
     path = tuple(path)
@@ -43,14 +46,33 @@ def tproj(t, path):
             return tproj(t, path[1:]) if t[1].endswith("::" + step[2:]) or "::" not in t[1] else ("proj", t, path)
         if step.startswith("f:") and step[2:].isdigit() and int(step[2:]) < len(t[2]):
             return tproj(t[2][int(step[2:])], path[1:])
+        if step.startswith("f:") and not step[2:].isdigit():
+            names = AGG_FIELDS.get(t[1])
+            if names and step[2:] in names and names.index(step[2:]) < len(t[2]):
+                return tproj(t[2][names.index(step[2:])], path[1:])
         if step.startswith("u:") and int(step[2:]) < len(t[2]):
             return tproj(t[2][int(step[2:])], path[1:])
         return ("proj", t, path)
     if k == "phi":
-        return ("phi", tuple(tproj(x, path) for x in t[1]))
+        alts = tuple(tproj(x, path) for x in t[1])
+        # the payload of one variant projected out of an aggregate of *another* variant
+        # (`Some`'s field of a `None`) does not exist: such an alternative is infeasible
+        live = tuple(a for a in alts if not _dead_proj(a))
+        if live and len(live) < len(alts):
+            return live[0] if len(live) == 1 else ("phi", live)
+        return ("phi", alts)
     if k == "proj":
         return ("proj", t[1], tuple(t[2]) + path)
     return ("proj", t, path)
+
+
+def _dead_proj(t):
+    if not (isinstance(t, tuple) and t and t[0] == "proj" and t[1][0] == "agg" and "::" in str(t[1][1]) and t[2]):
+        return False
+    if str(t[2][0]).startswith("v:") and not str(t[1][1]).endswith("::" + str(t[2][0])[2:]):
+        return True
+    # a field of a unit variant (`None`'s payload)
+    return str(t[2][0]).startswith("f:") and len(t[1][2]) == 0
 
 
 def _const_int(t):
@@ -233,6 +255,10 @@ def helper_depth(ctx):
 
 def trees(ctx, origins, depth=0):
     ts = {tree(ctx, o, depth) for o in origins}
+    if len(ts) > 1:
+        live = {t for t in ts if not _dead_proj(t)}
+        if live:
+            ts = live
     if len(ts) == 1:
         return next(iter(ts))
     return ("phi", tuple(sorted(ts, key=repr)))
@@ -506,6 +532,13 @@ def normalise_guard(cond, value, dty="bool"):
             if none:
                 return [("Lt", inner[2][0], inner[2][1]), ("variant", inner, value)]
         out = [("variant", cond[1], value)]
+        # the discriminant of a payload projected out of a combinator result
+        # (`match opt.map(|t| table.get(t)) { Some(Slot::Vacant) => .. }`) is the discriminant of
+        # what the closure returned
+        if inner[0] == "call" and inner[3] and inner[1][0] in ("Option", "Result") and _FACTS[0] is not None:
+            alts = [x for x in expand(_FACTS[0], inner) if x != NONE]
+            if len(alts) == 1 and alts[0] != inner and alts[0][0] in ("call", "place"):
+                out.extend(f_ for f_ in normalise_guard(("discr", alts[0]), value, dty) if f_ not in out)
         # `x?` on an Option: Continue exactly when x is Some, Break exactly when it is None
         if inner[0] == "call" and inner[1] == ("Try", "branch") and inner[2] and not inner[3]:
             xx = inner[2][0]
@@ -517,7 +550,7 @@ def normalise_guard(cond, value, dty="bool"):
                     return out
         # `c.then(|| ..)` / `c.then_some(..)` (possibly `.flatten()`ed) is Some only when c held
         x = inner
-        some = value == "1" or (isinstance(value, tuple) and value[0] == "not" and "0" in value[1])
+        some = value == "1" or (isinstance(value, tuple) and value[0] == "not" and "0" in value[1] and "1" not in value[1])
         # x.and_then(f) / x.map(f) / x.filter(p) / x.flatten() / views are Some only when x is
         while x[0] == "call" and not x[3] and x[2] and (
                 x[1] in (("Option", "flatten"),) or
@@ -528,6 +561,13 @@ def normalise_guard(cond, value, dty="bool"):
             if some and x[1] != ("Option", "flatten"):
                 out.append(("variant", x[2][0], "1"))
             x = x[2][0]
+        # x.map(f) / views are None exactly when x is
+        none_ = value == "0" or (isinstance(value, tuple) and value[0] == "not" and "1" in value[1] and "0" not in value[1])
+        y = inner
+        while none_ and y[0] == "call" and not y[3] and y[2] and y[1][0] == "Option" and \
+                y[1][1] in ("map", "as_ref", "as_mut", "as_deref", "copied", "cloned", "inspect"):
+            out.extend(f_ for f_ in normalise_guard(("discr", y[2][0]), "0", dty) if f_ not in out)
+            y = y[2][0]
         if x[0] == "call" and x[1] in (("bool", "then"), ("bool", "then_some")) and x[2] and not x[3]:
             if some:
                 out.extend(normalise_guard(x[2][0], "1", "bool"))
@@ -1006,17 +1046,60 @@ def apply_fn(facts, f, args, depth=0):
                 res |= expand(facts, t, depth + 1)
             return res
     if f[0] == "const":
+        fb = _fnitem_body(facts, f[1])
+        if fb is not None and depth < 8 and len(args) == fb.nargs and len(fb.blocks) <= 40:
+            # a crate-local function item handed to a combinator (`.map(Self::read)`): what it
+            # returns, in the caller's terms
+            from core import Ctx as _Ctx
+            fc = _Ctx(fb)
+            res = set()
+            for o in fc.org.local(0):
+                t = subst_closure(tree(fc, o), fb.key, (), [None] + list(args), fn_item=True)
+                res |= expand(facts, t, depth + 1)
+            if res:
+                return res
         return {("call", _fnitem_tag(f[1]), tuple(args), (), None)}
     return {("call", ("?", "apply"), (f,) + tuple(args), (), None)}
 
 
-def subst_closure(t, key, captured, args):
+def _fnitem_body(facts, pretty):
+    """the local body a function-item constant names (by the display string the operand carries)"""
+    idx = getattr(facts, "_fnitems", None)
+    if idx is None:
+        idx = {}
+        for b in facts.bodies.values():
+            for blk in b.blocks:
+                t = blk["term"]
+                ops = list(t.get("args", []) or []) + ([t["func"]] if isinstance(t.get("func"), dict) else [])
+                for st in blk["stmts"]:
+                    rv = st.get("rv") if st["k"] == "assign" else None
+                    if rv:
+                        ops += [rv[k] for k in ("op", "a", "b") if isinstance(rv.get(k), dict)]
+                        ops += [o for o in rv.get("ops", []) if isinstance(o, dict)] if isinstance(rv.get("ops"), list) else []
+                for a in ops:
+                    fn = a.get("fn") if a.get("k") == "const" else None
+                    if fn and fn.get("local") and fn.get("kind") in ("Fn", "AssocFn"):
+                        key = (fn.get("resolved") or {}).get("key") or fn.get("key")
+                        for nm in (fn.get("pretty"), fn.get("path")):
+                            if nm:
+                                idx.setdefault(nm, set()).add(key)
+        facts._fnitems = idx
+    keys = idx.get(pretty) or set()
+    if len(keys) != 1:
+        return None
+    return facts.body(next(iter(keys)))
+
+
+def subst_closure(t, key, captured, args, fn_item=False):
     """rewrite a tree expressed over the closure body's own arguments (arg1 = environment,
-    arg2.. = parameters) into the caller's terms"""
+    arg2.. = parameters) into the caller's terms (fn_item: a plain function, args[0] is a
+    placeholder and arg k is args[k])"""
     if not isinstance(t, tuple) or not t:
         return t
     if t[0] == "place" and t[1] == key:
         r, p = t[2], tuple(t[3])
+        if fn_item and r[0] == "arg" and 1 <= r[1] < len(args):
+            return tproj(args[r[1]], p)
         if r == ("arg", 1):
             if p and p[0].startswith("u:"):
                 k = int(p[0][2:])
@@ -1027,8 +1110,8 @@ def subst_closure(t, key, captured, args):
             return tproj(args[r[1] - 2], p)
         return t
     if t[0] == "call":
-        return ("call", t[1], tuple(subst_closure(x, key, captured, args) for x in t[2]), t[3], t[4])
-    return tuple(subst_closure(x, key, captured, args) if isinstance(x, tuple) else x for x in t)
+        return ("call", t[1], tuple(subst_closure(x, key, captured, args, fn_item) for x in t[2]), t[3], t[4])
+    return tuple(subst_closure(x, key, captured, args, fn_item) if isinstance(x, tuple) else x for x in t)
 
 
 def is_agg(t, name):
@@ -1187,7 +1270,8 @@ def ret_alts(ctx):
     out = set()
     for o in ctx.org.local(0):
         out |= expand(facts, tree(ctx, o))
-    return out
+    live = {t for t in out if not _dead_proj(t)}
+    return live if live else out
 
 
 def nobb(t):
